@@ -1,5 +1,5 @@
 (* C08 proofs over Model/Session.v: whatever the history, errors included. *)
-From MC Require Import Lib.Base Model.Prefs Model.Nav Model.Session Proofs.PrefsP Proofs.NavP.
+From MC Require Import Lib.Base Model.Prefs Model.Nav Gen.KeyTab Model.KeyPress Model.Session Proofs.PrefsP Proofs.NavP Proofs.KeyPressP.
 Local Open Scope N_scope.
 
 Section Proofs.
@@ -24,11 +24,13 @@ Section Proofs.
     induction h as [|c h IH]; intro s; [reflexivity|]. cbn [Session.run fold_left pref_ops map Prefs.run].
     change (fold_left (fun x c0 => fst (sstep x c0)) h (fst (sstep s c))) with (srun (fst (sstep s c)) h). rewrite IH.
     change (fold_left (fun s0 o => fst (Prefs.step udp fl cl ff s0 o)) (map _ h) ?x) with (prun x (pref_ops h)).
-    f_equal. destruct c as [n v|[e|]|cmd outs|id o lk|]; cbn [Session.step Prefs.step].
+    f_equal. destruct c as [n v|[e|]|cmd outs|k sh ct al me outs|id o lk|]; cbn [Session.step Prefs.step].
     - destruct (set_preference udp fl cl ff (s_prefs s) n v) as [p o]. reflexivity.
     - reflexivity.
     - reflexivity.
     - destruct (s_expr s) as [[ids root]|]; [|reflexivity]. destruct (nav_command ids root cmd outs (s_nav s)). reflexivity.
+    - destruct (press k sh ct al me) as [| |cmd]; [reflexivity|reflexivity|].
+      destruct (s_expr s) as [[ids root]|]; [|reflexivity]. destruct (nav_command ids root cmd outs (s_nav s)). reflexivity.
     - destruct (s_expr s) as [[ids root]|]; [|reflexivity]. destruct (set_node ids id o lk (s_nav s)). reflexivity.
     - reflexivity.
   Qed.
@@ -48,12 +50,17 @@ Section Proofs.
   Proof.
     intros h s c Hwf.
     assert (Hw : wf (s_prefs (srun s h))) by (rewrite L_prefs_of_history; apply L_run_wf; exact Hwf).
-    destruct c as [n v|[e|]|cmd outs|id o lk|]; cbn [Session.step].
+    destruct c as [n v|[e|]|cmd outs|k sh ct al me outs|id o lk|]; cbn [Session.step].
     - pose proof (proj1 (L_prefs_total udp fl cl ff _ n v Hw)) as Hp.
       destruct (set_preference udp fl cl ff (s_prefs (srun s h)) n v) as [p o]. cbn [snd] in *. destruct o; cbn; congruence.
     - discriminate.
     - discriminate.
     - destruct (s_expr (srun s h)) as [[ids root]|]; [|discriminate].
+      pose proof (L_nav_never_panics ids root cmd outs (s_nav (srun s h))) as Hn.
+      destruct (nav_command ids root cmd outs (s_nav (srun s h))) as [n st]. cbn [snd] in *. destruct st; cbn; congruence.
+    - pose proof (L_press_never_panics k sh ct al me) as Hk.
+      destruct (press k sh ct al me) as [| |cmd]; [discriminate|congruence|].
+      destruct (s_expr (srun s h)) as [[ids root]|]; [|discriminate].
       pose proof (L_nav_never_panics ids root cmd outs (s_nav (srun s h))) as Hn.
       destruct (nav_command ids root cmd outs (s_nav (srun s h))) as [n st]. cbn [snd] in *. destruct st; cbn; congruence.
     - destruct (s_expr (srun s h)) as [[ids root]|]; [|discriminate]. unfold set_node.
